@@ -128,7 +128,7 @@ Section Params.
 
   Lemma G_step s o s' : G s -> adm s o = true -> step s o = Some s' -> G s'.
   Proof.
-    intros HG Ha H. pose proof HG as [Gi Gc]. destruct o as [p| | |ok| |name c|name c]; cbn [C11.step] in H.
+    intros HG Ha H. pose proof HG as [Gi Gc]. destruct o as [p|am p| | |ok| |name c|name c]; cbn [C11.step] in H.
     - (* receive *) injection H as <-. unfold receive. destruct (ilookup p (index s)) eqn:E; [exact HG|].
       match goal with |- G {| blobs := blobs ?x; meta := _; index := _; heap := _; jobs := _; deletes := _; nonce := _ |} =>
         destruct x as [b m i h j d n] eqn:Ex end.
@@ -141,6 +141,10 @@ Section Params.
         * cbn in He. injection He as <- <-. constructor; [exists (nonce s); reflexivity|constructor].
         * apply (Gc ls k). apply contents_in. exists e. split; [apply in_or_app; right; exact Hin|exact He].
         * cbn in He. discriminate.
+    - (* failed receive *) destruct (ilookup p (index s)); [injection H as <-; exact HG|]. destruct am; injection H as <-; [|exact HG].
+      split; [exact Gi|]. intros l k Hin. apply (Gc l k). apply contents_in in Hin as (e & Hin & He). apply contents_in. cbn [meta blobs] in Hin.
+      apply in_app_or in Hin as [Hin|Hin]; [exists e; split; [apply in_or_app; left; exact Hin|exact He]|].
+      apply In_sput in Hin as [Hin | ->]; [exists e; split; [apply in_or_app; right; exact Hin|exact He]|cbn in He; discriminate].
     - (* job upload *) injection H as <-. unfold job_upload. destruct (jobs s) as [|j rest]; [exact HG|].
       destruct (lines_of (j_plains j) (index s)) as [ls|] eqn:El; [|split; assumption].
       assert (G1 : G {| blobs := blobs s; meta := sput (CMeta ls (nonce s)) (meta s); index := index s; heap := heap s; jobs := rest;
@@ -461,8 +465,16 @@ Section Recover.
 
   Lemma R_step s o s' : R s -> honest o = true -> step s o = Some s' -> R s'.
   Proof.
-    intros HR Ho H. destruct o as [p| | |ok| |name c|name c]; try discriminate; cbn [C11.step] in H.
+    intros HR Ho H. destruct o as [p|am p| | |ok| |name c|name c]; try discriminate; cbn [C11.step] in H.
     - injection H as <-. apply R_receive; exact HR.
+    - destruct (ilookup p (index s)); [injection H as <-; exact HR|]. destruct am; injection H as <-; [|exact HR].
+      assert (Hm : forall name, fresh s name -> (nonce_of name < nonce s + 2)%N) by (intros name; unfold fresh; lia).
+      apply R_of_parts; cbn [blobs meta index heap jobs deletes nonce].
+      + intros e He. destruct (R1 s HR e He) as (A & ls & n & B & C). split; [exact A|]. exists ls, n. split; [exact B|lia].
+      + apply (R3 s HR).
+      + apply (R2 s HR).
+      + apply (HJ_mono (fresh s)); [intros name X; unfold fresh; cbn; apply Hm; exact X|]. split; [apply (RH s HR)|apply (RJ s HR)].
+      + intros d Hd name Hn. unfold fresh. cbn. apply Hm. apply (RD s HR d Hd name Hn).
     - injection H as <-. apply R_job_upload; exact HR.
     - injection H as <-. apply R_of_parts; cbn [blobs meta index heap jobs deletes nonce]; try apply HR.
       split; [apply (RH s HR)|]. intros j Hj. apply (RJ s HR j). destruct (jobs s); [destruct Hj|right; exact Hj].
@@ -509,7 +521,8 @@ Section Recover.
   Theorem honest_runs_never_fail : forall os s, forallb honest os = true -> run init os = Some s -> forall o, honest o = true -> step s o <> None.
   Proof.
     intros os s Hh Hr o Ho. pose proof (R_run os init s R_init Hh Hr) as HR.
-    destruct o; cbn [C11.step]; try discriminate.
-    destruct (restart_rebuilds (meta s) s HR (fun e => conj (fun h => h) (fun h => h))) as (s1 & A & _). unfold restart. rewrite A. discriminate.
+    destruct o as [p|am p| | |ok| |name c|name c]; cbn [C11.step]; try discriminate.
+    - destruct (ilookup p (index s)); [discriminate|destruct am; discriminate].
+    - destruct (restart_rebuilds (meta s) s HR (fun e => conj (fun h => h) (fun h => h))) as (s1 & A & _). unfold restart. rewrite A. discriminate.
   Qed.
 End Recover.
